@@ -385,6 +385,32 @@ func TestVerifC01Deliver(t *testing.T) {
 					}
 				}
 			}
+			// some nodes also relay or subscribe an unrelated topic, before or after taking their role in the judged one
+			for _, x := range cn.nodes {
+				x := x
+				if c.Chance(0.25) {
+					kind := c.Intn(2)
+					steps = append(steps, func() {
+						aux, err := x.nd.ps.Join("aux")
+						if err != nil {
+							return
+						}
+						if kind == 0 {
+							aux.Relay()
+							hist = append(hist, "aux_relay("+x.nd.name+")")
+						} else if s, err := aux.Subscribe(); err == nil {
+							go func() {
+								for {
+									if _, err := s.Next(x.nd.ctx); err != nil {
+										return
+									}
+								}
+							}()
+							hist = append(hist, "aux_subscribe("+x.nd.name+")")
+						}
+					})
+				}
+			}
 			for _, x := range cn.nodes {
 				x := x
 				steps = append(steps, func() {
